@@ -14,6 +14,7 @@ untouched.  `which worker takes the call` is a choice (default: round robin).  M
 workers (in the real pool they are per process) - a stated limit.
 """
 import concurrent.futures as cf
+import contextvars
 import pickle
 import random as _stdrandom
 
@@ -156,10 +157,12 @@ class ModelThreadPool(_ModelPool):
             t = None
         EVENTS.append(('thread', f.idx, t))
         try:
+            # a pool thread does not see the context variables of the thread that submitted the call
+            ctx = contextvars.Context()
             if t is not None and t not in self.tstarted:
                 self.tstarted.add(t)
-                self.initializer(*self.initargs)
-            f.res = fn(*a, **k)
+                ctx.run(self.initializer, *self.initargs)
+            f.res = ctx.run(fn, *a, **k)
         except seams.HarnessError:
             raise
         except BaseException as e:   # noqa
